@@ -256,17 +256,25 @@ func extraPrograms() []*Prog {
 		}
 		// two comparisons of one variable against two bounds under one and/or
 		// (a range check and its relatives): lazy, operand by operand
-		k := func() *term.Term { return term.Var("k", I) }
+		// (kept names: the SAME variable x on both sides)
+		x := func() *term.Term { return term.KeptVar("x", I) }
+		lo := func() *term.Term { return term.KeptVar("lo", I) }
+		hi := func() *term.Term { return term.KeptVar("hi", I) }
 		cmps := []string{"<", "<=", ">", ">=", "=", "!="}
 		for _, c1 := range cmps {
 			for _, c2 := range cmps {
-				add(term.Op("and", B, term.Op(c1, B, n(), m()), term.Op(c2, B, n(), k())))
-				add(term.Op("or", B, term.Op(c1, B, n(), m()), term.Op(c2, B, n(), k())))
+				add(term.Op("and", B, term.Op(c1, B, x(), lo()), term.Op(c2, B, x(), hi())))
+				add(term.Op("or", B, term.Op(c1, B, x(), lo()), term.Op(c2, B, x(), hi())))
 			}
 		}
-		add(term.Op("and", B, term.Op("ge", B, n(), m()), term.Op("le", B, n(), k())))
-		add(term.Op("and", B, b(), term.Op(">=", B, n(), term.Const(int64(0))), term.Op("<=", B, n(), k())))
-		add(term.Op("and", B, term.Op("<=", B, n(), k()), b(), term.Op(">=", B, n(), m())))
+		add(term.Op("and", B, term.Op("ge", B, x(), lo()), term.Op("le", B, x(), hi())))
+		add(term.Op("and", B, term.Op("le", B, x(), hi()), term.Op("ge", B, x(), lo())))
+		add(term.Op("and", B, b(), term.Op(">=", B, x(), term.Const(int64(0))), term.Op("<=", B, x(), hi())))
+		add(term.Op("and", B, term.Op("<=", B, x(), hi()), b(), term.Op(">=", B, x(), lo())))
+		add(term.Op("and", B, term.Op(">=", B, x(), lo()), term.Op("<=", B, x(), term.Const(int64(1)))))
+		add(term.Op("=", B, x(), x()))
+		add(term.Op("<", B, x(), x()))
+		add(term.Op("and", B, term.Op("<=", B, x(), lo()), term.Op("<=", B, lo(), x())))
 		for _, c := range []int64{0, 1} {
 			add(term.Op("between", B, n(), term.Const(c), term.Const(int64(1))))
 			add(term.Op("between", B, term.Const(c), n(), term.Const(int64(1))))
